@@ -453,7 +453,7 @@ func c19KitexCase(t *testing.T, ep string, admitted, fallback bool, handler stri
 	if fallback {
 		opts = append(opts, WithBlockFallback(func(context.Context, interface{}, interface{}, error) error {
 			c.fallbackCalled()
-			return c19ErrFallback
+			return c19FbResult(handler)
 		}))
 	}
 	var mw func(endpoint.Endpoint) endpoint.Endpoint
@@ -486,6 +486,10 @@ func c19KitexCase(t *testing.T, ep string, admitted, fallback bool, handler stri
 	var err error
 	c.EscapedPanic = c19Guard(func() { err = h(ctx, "c19 req", "c19 resp") })
 	c.Response = c19ErrText(err)
+	if !admitted && fallback {
+		// the caller must get exactly what the fallback answered
+		c.Body, c.FallbackBody, c.BodyChecked = c19ErrText(err), c19ErrText(c19FbResult(handler)), true
+	}
 	c.DefaultRejectionSeen = c19IsBlockErr(err)
 	c.Notes = "middleware called directly; handler = the wrapped endpoint.Endpoint; ctx has rpcinfo with a RemoteInfo callee (instance set by the handler)"
 	if outlierMode {
@@ -495,3 +499,12 @@ func c19KitexCase(t *testing.T, ep string, admitted, fallback bool, handler stri
 }
 
 func init() { c19UsesCtx = true }
+
+// c19FbResult is what the configured fallback answers: an error of its own, or nil (graceful degradation: the
+// caller is served something else and must not see a rejection) - the handler dimension is free on the blocked path.
+func c19FbResult(handler string) error {
+	if handler == "ok" {
+		return nil
+	}
+	return c19ErrFallback
+}
